@@ -42,6 +42,13 @@ PROGRAMS.append({"id": "e_lambda", "text": _E2, "values": {"c": "x = 1\\ny = 2\\
                  "e": "(lambda a, b: a + linesep + b + linesep)('x = 1', 'y = 2')"}})
 PROGRAMS.append({"id": "e_listcomp", "text": _E2, "values": {"c": "x = 1\\ny = 2\\n", "m": "verifmod_e_listcomp",
                  "e": "''.join([ln + linesep for ln in ('x = 1', 'y = 2')])"}})
+# -m on modules that have a code object but NO SOURCE TEXT: a sourceless .pyc (written per interpreter into the
+# module directory) and a frozen module of the interpreter
+_NS = "x = 1\ny = [x, 2.5]\n"
+PROGRAMS.append({"id": "m_nosrc", "text": _NS, "values": {"c": "x = 1\\ny = [x, 2.5]\\n", "e": "'x = 1' + linesep + 'y = [x, 2.5]' + linesep",
+                                                         "m": "verifnosrc_{v}"}})
+PROGRAMS.append({"id": "m_frozen", "text": _NS, "values": {"c": "x = 1\\ny = [x, 2.5]\\n", "e": "'x = 1' + linesep + 'y = [x, 2.5]' + linesep",
+                                                          "m": "__hello__"}})
 # two sources given the IDENTICAL string are still two sources
 PROGRAMS.append({"id": "same_c_e", "text": "pass\n", "values": {"c": "'pass'", "e": "'pass'", "m": "verifmod_same_c_e"}})
 PROGRAMS.append({"id": "same_c_m", "text": "x = 1\n", "values": {"c": "verifmod_same_c_m", "e": "'x = 1'", "m": "verifmod_same_c_m"}})
@@ -100,6 +107,13 @@ def run(tier: str, rep: Report):
         (wd / f"prog_{p['id']}.py").write_text(p["text"])
         (moddir / f"verifmod_{p['id']}.py").write_text(p["text"])
     versions = SUPPORTED if tier == "thorough" else SUPPORTED
+    for v in versions:
+        srcf = wd / f"nosrc_{v}.py"
+        srcf.write_text(_NS)
+        pr = subprocess.run([str(INTERP[v]), "-c", "import py_compile, sys; py_compile.compile(sys.argv[1], cfile=sys.argv[2], doraise=True)",
+                             str(srcf), str(moddir / f"verifnosrc_{v}.pyc")], capture_output=True, text=True)
+        if pr.returncode:
+            rep.machinery_error(f"could not write a sourceless module for {v}: {pr.stderr[-200:]}")
     pool = Pool(versions, per_version=1)
     jobs = []
     try:
@@ -107,7 +121,7 @@ def run(tier: str, rep: Report):
         for v in versions:
             w = pool.one(v)
             for p in PROGRAMS:
-                vals = source_values(p, wd)
+                vals = source_values(p, wd, v)
                 for k in ("file", "c", "e", "m"):
                     exp[(v, p["id"], k)] = w.req("cli.expected", kind=k, value=vals[k], modpath=str(moddir))
     finally:
@@ -122,7 +136,7 @@ def run(tier: str, rep: Report):
 
     def one(job):
         v, oi, o, p = job
-        vals = source_values(p, wd)
+        vals = source_values(p, wd, v)
         argv = []
         if "file" in o["src"]:
             argv.append(vals["file"])
@@ -195,10 +209,10 @@ def canon(x):
     return x
 
 
-def source_values(p, wd):
+def source_values(p, wd, v=""):
     text = p["text"]
     if "values" in p:
-        return dict(p["values"], file=str(wd / f"prog_{p['id']}.py"))
+        return dict({k: x.replace("{v}", v) for k, x in p["values"].items()}, file=str(wd / f"prog_{p['id']}.py"))
     return {
         "file": str(wd / f"prog_{p['id']}.py"),
         "c": text.replace("\\", "\\\\").replace("\n", "\\n") if "\\" not in text else text.replace("\n", "\\n"),
